@@ -75,6 +75,31 @@ const DECL_LINES: &[&str] = &[
     "A.X 1",
     "<!>",
     "x <=> 1",
+    // declarations that collide with what the standard preamble imports into every file
+    "max :: 1",
+    "print :: fn do end",
+    "map := 2",
+    "Maybe :: blob { a: int }",
+    "list :: 3",
+    "abs :: fn x -> x end",
+    // ill-typed operations, on one line and spread over several
+    "zz1 := 1 + \"a\"",
+    "print(\"abc\" + 1)",
+    "zz2 := (\"abc\" +\n1)",
+    "print(\"abc\"\n    + 1,\n2)",
+    "zz3 := [1,\n\"a\" < 2]",
+    "zz4 := (1\n<=> \"a\")",
+    "if (1 <\n\"a\") do\nend",
+    "zz5 := (true and\n1)",
+    "zz6 := -\"s\"",
+    "zz7 := not\n1",
+    // self-referential and generic shapes
+    "zl := []\nzl = [zl]\nzl = 1",
+    "zt := (1, 2)\nzt = (zt, zt)",
+    "zf :: fn a -> a(a) end",
+    "zg :: fn a, b do\n    a.x * b.y\nend\nzg(1, 2)",
+    "Zr :: blob { next: Zr }",
+    "Ze :: enum\n    A Ze,\n    B,\nend",
 ];
 
 fn token_soup(r: &mut Rng, n: usize) -> String {
@@ -134,10 +159,51 @@ fn pick_char(r: &mut Rng, text: &str) -> usize {
     r.below(n + 1)
 }
 
+fn identifiers(text: &str) -> Vec<(usize, usize, String)> {
+    // (char offset, char length, word) of every identifier-like word outside comments and strings
+    let cs: Vec<char> = text.chars().collect();
+    let mut out = Vec::new();
+    let mut i = 0;
+    while i < cs.len() {
+        let c = cs[i];
+        if c == '/' && i + 1 < cs.len() && cs[i + 1] == '/' {
+            while i < cs.len() && cs[i] != '\n' {
+                i += 1;
+            }
+            continue;
+        }
+        if c == '"' {
+            i += 1;
+            while i < cs.len() && cs[i] != '"' {
+                i += 1;
+            }
+            i += 1;
+            continue;
+        }
+        if c.is_ascii_alphabetic() || c == '_' {
+            let st = i;
+            while i < cs.len() && (cs[i].is_ascii_alphanumeric() || cs[i] == '_') {
+                i += 1;
+            }
+            out.push((st, i - st, cs[st..i].iter().collect()));
+            continue;
+        }
+        i += 1;
+    }
+    out
+}
+
+const KEYWORDS: &[&str] = &[
+    "fn", "pu", "do", "end", "if", "elif", "else", "case", "loop", "break", "continue", "ret", "blob", "externblob", "enum",
+    "use", "from", "as", "external", "and", "or", "not", "in", "is", "true", "false", "nil",
+];
+
+const SWAP_WORDS: &[&str] = &["int", "float", "str", "bool", "void", "self", "start", "print", "x", "a", "A", "B", "list", "max", "Maybe", "nil", "true"];
+
 pub const FAULT_KINDS: &[&str] = &[
     "trunc-char", "trunc-line", "replace-char", "insert-char", "delete-char", "splice", "drop-lines", "dup-lines",
     "move-lines", "insert-foreign", "conflict", "multibyte", "token-soup", "empty", "crlf", "remove", "ioerr",
-    "insert-decl",
+    "insert-decl", "rename-ident", "swap-literal", "reflow",
 ];
 
 fn make_fault(r: &mut Rng, kind: &str, file: &str, text: &str, corpus: &Corpus, c: &Concrete) -> Option<Fault> {
@@ -204,6 +270,78 @@ fn make_fault(r: &mut Rng, kind: &str, file: &str, text: &str, corpus: &Corpus, 
             } else {
                 Fault::ReplaceLines { file, line: pick_line(r, text), n: r.range(1, 3.min(nlines.max(1))), text: soup }
             }
+        }
+        "rename-ident" => {
+            // an identifier (not a keyword) becomes another identifier of the same file, or a common word
+            let ids: Vec<(usize, usize, String)> = identifiers(text).into_iter().filter(|(_, _, w)| !KEYWORDS.contains(&w.as_str())).collect();
+            if ids.is_empty() {
+                return None;
+            }
+            let (at, len, old) = r.pick(&ids).clone();
+            let new = if r.chance(2, 3) { r.pick(&ids).2.clone() } else { r.pick(SWAP_WORDS).to_string() };
+            if new == old {
+                return None;
+            }
+            Fault::ReplaceRange { file, at, len, text: new, what: "ident".into() }
+        }
+        "swap-literal" => {
+            // a literal changes its kind: 1 <-> "s" <-> 1.5 <-> true <-> nil <-> [] <-> (1, 2)
+            let cs: Vec<char> = text.chars().collect();
+            let mut lits: Vec<(usize, usize)> = Vec::new();
+            let mut i = 0;
+            while i < cs.len() {
+                if cs[i] == '"' {
+                    let st = i;
+                    i += 1;
+                    while i < cs.len() && cs[i] != '"' {
+                        i += 1;
+                    }
+                    i = (i + 1).min(cs.len());
+                    lits.push((st, i - st));
+                } else if cs[i].is_ascii_digit() && (i == 0 || !(cs[i - 1].is_ascii_alphanumeric() || cs[i - 1] == '_')) {
+                    let st = i;
+                    while i < cs.len() && (cs[i].is_ascii_digit() || cs[i] == '.') {
+                        i += 1;
+                    }
+                    lits.push((st, i - st));
+                } else {
+                    i += 1;
+                }
+            }
+            if lits.is_empty() {
+                return None;
+            }
+            let (at, len) = *r.pick(&lits);
+            let new = *r.pick(&["1", "\"s\"", "1.5", "true", "nil", "[]", "(1, 2)", "[1]", "fn -> 1 end", "9223372036854775807", "99999999999999999999", "1e999", "0.0"]);
+            Fault::ReplaceRange { file, at, len, text: new.to_string(), what: "literal".into() }
+        }
+        "reflow" => {
+            // spaces inside brackets (where line breaks are legal) become line breaks
+            let mut depth = 0i32;
+            let mut cands = Vec::new();
+            for (i, ch) in text.chars().enumerate() {
+                match ch {
+                    '(' | '[' | '{' => depth += 1,
+                    ')' | ']' | '}' => depth = (depth - 1).max(0),
+                    ' ' if depth > 0 => cands.push(i),
+                    _ => {}
+                }
+            }
+            if cands.is_empty() {
+                // fall back to any spaces: breaks statements apart
+                cands = text.chars().enumerate().filter(|(_, c)| *c == ' ').map(|(i, _)| i).collect();
+                if cands.is_empty() {
+                    return None;
+                }
+            }
+            let n = r.range(1, 6.min(cands.len()));
+            let mut positions = Vec::new();
+            for _ in 0..n {
+                positions.push(*r.pick(&cands));
+            }
+            positions.sort();
+            positions.dedup();
+            Fault::Reflow { file, positions, indent: *r.pick(&[0usize, 0, 1, 4, 8]) }
         }
         "empty" => Fault::Empty { file },
         "crlf" => Fault::Crlf { file },
@@ -302,7 +440,11 @@ pub fn generate(seed: u64, corpus: &Corpus, bias: Bias) -> Scenario {
     let mut fl = Rng::sub(seed, "flags");
     base.no_std = fl.chance(1, 8);
     if fl.chance(1, 8) {
-        base.require = Some(if fl.chance(1, 2) { "extmod".into() } else { "extmod.lua".into() });
+        base.require = Some(fl.pick(crate::layerb::REQUIRE_NAMES).to_string());
+    }
+
+    if fl.chance(1, 8) {
+        base.main_spelling = fl.pick(&["bare", "dot-slash", "relative-dir"]).to_string();
     }
 
     // ---- hash seed
@@ -377,6 +519,16 @@ pub fn generate(seed: u64, corpus: &Corpus, bias: Bias) -> Scenario {
 /// Screening to the property's own bound ("nesting depth bounded so that native stack
 /// depth is not what is being measured") and to the harness' size bound.
 pub fn nesting_depth(text: &str) -> usize {
+    nesting_depth_opt(text, true)
+}
+
+/// Without the column-0 reset: an opener that is never closed keeps counting. This is the
+/// conservative measure used before a stack overflow is blamed on the compiler.
+pub fn nesting_depth_strict(text: &str) -> usize {
+    nesting_depth_opt(text, false)
+}
+
+pub fn nesting_depth_opt(text: &str, reset_at_column_zero: bool) -> usize {
     // Token-level estimate of construct nesting. A line that starts a new top-level
     // statement (column 0, not a closer) resets the depth, so sequences do not accumulate.
     let mut depth: i64 = 0;
@@ -385,7 +537,7 @@ pub fn nesting_depth(text: &str) -> usize {
     for line in text.split('\n') {
         let first = line.chars().next();
         let first_word: String = line.chars().take_while(|c| c.is_ascii_alphanumeric() || *c == '_').collect();
-        if let Some(c) = first {
+        if let (true, Some(c)) = (reset_at_column_zero, first) {
             if !c.is_whitespace() && !matches!(c, ')' | ']' | '}') && !matches!(first_word.as_str(), "end" | "else" | "elif") {
                 depth = 0;
                 pending_fn = false;
